@@ -5,7 +5,7 @@
    120-129 latex wrapper | 130-149 splitter | 150-159 round trip | 160-179 heap *)
 From Coq Require Import List NArith ZArith Bool.
 From BP Require Import Base.Chars Base.Sx Run.Codec.
-From BP Require Import Run.RunMonth.
+From BP Require Import Run.RunMonth Run.RunSplitter.
 Import ListNotations.
 Local Open Scope Z_scope.
 
@@ -16,6 +16,7 @@ Definition run_case (x : sx) : sx :=
   | L (A op :: args) =>
       if op =? 1 then match args with [n] => match as_N n with Some n' => r_ok (sN (asc n')) | None => sx_err end | _ => sx_err end
       else if in_range 10 19 op then run_month op args
+      else if in_range 130 149 op then run_splitter op args
       else sx_err
   | _ => sx_err
   end.
